@@ -711,14 +711,9 @@ theorem obs_img (cfg : Cfg) :
     have ih := obsL_img cfg ch hch och
     have t1 := table_congr _ _ _ (restore_data_faithful cfg _ _ dg hi hd o1)
     have t2 := table_congr _ _ _ (restore_sig_faithful cfg _ _ sg hsi hso hs o2)
-    have hcache : (if (cfg.keepCache || ch.isEmpty) = true then c.cached else none) = c.cached := by
-      cases hk : cfg.keepCache
-      · cases ch with
-        | nil => simp
-        | cons x xs => simp [o3 hk (by simp)]
-      · simp
     simp only [img, Node.withDetached, obs, e2, e5, ih, t1, t2]
-    simp [Core.seen, Core.forState, hcache]
+    simp [Core.seen, Core.forState]
+    intro hk hne; exact (o3 hk hne).symm
 theorem obsL_img (cfg : Cfg) :
     ∀ (ns : List Node), WFL ns → AtMostOneL cfg ns → ∀ p, obsL p (imgL cfg ns) = obsL p ns
   | [], _, _, _ => by simp [imgL]
@@ -761,12 +756,6 @@ theorem fileLoad_save (cfg : Cfg) (n : Node) (hwf : WF n) (hset : cfg.pushLinks 
   simp only [AtMostOne] at hone
   obtain ⟨o1, o2, o3, och⟩ := hone
   obtain ⟨e1, e2, e3, e4, e5⟩ := doms_imgL cfg ch
-  have hcache : (if (cfg.keepCache || ch.isEmpty) = true then c.cached else none) = c.cached := by
-    cases hk : cfg.keepCache
-    · cases ch with
-      | nil => simp
-      | cons x xs => simp [o3 hk (by simp)]
-    · simp
   -- what the first cycle left on the top composite
   have hD := restore_data_faithful cfg _ _ dg hi hd o1
   have hS := restore_sig_faithful cfg _ _ sg hsi hso hs o2
@@ -798,7 +787,8 @@ theorem fileLoad_save (cfg : Cfg) (n : Node) (hwf : WF n) (hset : cfg.pushLinks 
       (restore_sig_faithful' cfg _ _ sg _ sg.outl hsi hso hs hmem hnd2 (fun _ _ => rfl) o2)
     have ih := obsL_img cfg ch hch och
     simp only [Node.withDetached, obs, e2, e5, ih, t1, t2, afterAdopt_imgL]
-    simp [Core.seen, Core.forState, hcache]
+    simp [Core.seen, Core.forState]
+    intro hk hne; exact (o3 hk hne).symm
   · intro l hl'; rw [e1]; exact hst l (by simpa [Core.forState] using hl')
   · rw [imgL_adopt, e2, e3]
     exact checkStrs_strings _ _ _ _ (fun a ha => ha) (fun a _ o ho' => hd.closed a o ho')
